@@ -31,9 +31,12 @@ Others(r) == { w \in P(r.post) : w.id # r.id } = { w \in P(r.pre) : w.id # r.id 
 EffectOK(r) ==
   LET a == ById(r.pre, r.id) b == ById(r.post, r.id) IN
   r.res = "ok" =>
-    CASE r.op = "create" -> a.id = "" /\ b.id = r.id /\ Others(r)
+    CASE r.op = "create" -> a.id = "" /\ b.id = r.id /\ ~r.idTaken /\ Others(r)          \* a file name that is taken is never given away
+      [] r.op = "restart" -> Persistent(r.post) = Persistent(r.pre) \cup { w \in P(r.reload) : w.id \in Rng(r.unloadedBefore) }
       \* a collection wallet has no seed to derive from: asking it for new addresses adds nothing
-      [] r.op = "newaddr" -> Len(b.ext) = Len(a.ext) + (IF a.type = "collection" THEN 0 ELSE r.k) /\ SubSeq(b.ext, 1, Len(a.ext)) = a.ext /\ b.chg = a.chg /\ Others(r)
+      [] r.op = "newaddr" -> IF r.onChange
+                             THEN Len(b.chg) = Len(a.chg) + r.k /\ SubSeq(b.chg, 1, Len(a.chg)) = a.chg /\ b.ext = a.ext /\ Others(r)
+                             ELSE Len(b.ext) = Len(a.ext) + (IF a.type = "collection" THEN 0 ELSE r.k) /\ SubSeq(b.ext, 1, Len(a.ext)) = a.ext /\ b.chg = a.chg /\ Others(r)
       [] r.op = "scan" -> Len(b.ext) >= Len(a.ext) /\ SubSeq(b.ext, 1, Len(a.ext)) = a.ext /\ SubSeq(b.chg, 1, Len(a.chg)) = a.chg /\ Others(r)
       [] r.op = "label" -> b.ext = a.ext /\ b.encrypted = a.encrypted /\ Others(r)
       [] r.op = "encrypt" -> ~a.encrypted /\ b.encrypted /\ b.ext = a.ext /\ b.chg = a.chg /\ Others(r)
